@@ -184,3 +184,292 @@ fn c12_lookup_switch() {
     kani::cover!(n == 2 && u >= want_switch);
     kani::cover!(n == 2 && u < want_switch);
 }
+
+// ------------------------------------------------------------------ C03
+/// UTC instant denoted by leap count `l` (exact arithmetic), by the declarative C12 definition
+fn spec_l2u(ls: &[LeapSecond], l: i64) -> i128 {
+    l as i128 - spec_corr(ls, l) as i128
+}
+
+fn c03_body<const N: usize>(max_leaps: usize) {
+    let types = [any_ltt(), any_ltt(), any_ltt()];
+    let tr: [Transition; N] = core::array::from_fn(|_| Transition::new(kani::any(), kani::any()));
+    let n: usize = kani::any();
+    kani::assume(n <= N);
+    let (ls, m) = any_leaps3();
+    kani::assume(m <= max_leaps);
+    let has_rule: bool = kani::any();
+    let rule = if has_rule { Some(TransitionRule::Fixed(any_ltt())) } else { None };
+    let zone = match TimeZoneRef::new(&tr[..n], &types, &ls[..m], &rule) {
+        Ok(z) => z,
+        Err(_) => return,
+    };
+    let t: i64 = kani::any();
+    let r = zone.find_local_time_type(t);
+    // reference: linear scan for the last transition whose denoted UTC instant is <= t
+    let mut last: Option<usize> = None;
+    let mut i = 0;
+    while i < n {
+        if spec_l2u(&ls[..m], tr[i].unix_leap_time()) <= t as i128 {
+            last = Some(i);
+        }
+        i += 1;
+    }
+    let rule_type: Option<&LocalTimeType> = match &rule {
+        Some(TransitionRule::Fixed(l)) => Some(l),
+        _ => None,
+    };
+    if let Err(TzError::OutOfRange) = &r {
+        // only the leap conversion can overflow, and only within |correction| <= 3 of the ends of i64
+        assert!(m > 0 && n > 0 && (t > i64::MAX - 4 || t < i64::MIN + 4));
+        return;
+    }
+    if n == 0 || last == Some(n - 1) {
+        match rule_type {
+            Some(l) => assert!(matches!(&r, Ok(x) if core::ptr::eq(*x, l))),
+            None if n == 0 => assert!(matches!(&r, Ok(x) if core::ptr::eq(*x, &types[0]))),
+            None => assert!(matches!(&r, Err(TzError::NoAvailableLocalTimeType))),
+        }
+    } else {
+        let want = match last {
+            Some(j) => &types[tr[j].local_time_type_index()],
+            None => &types[0],
+        };
+        assert!(matches!(&r, Ok(x) if core::ptr::eq(*x, want)));
+    }
+    kani::cover!(n == N && last == Some(0));
+    kani::cover!(n == N && last.is_none());
+    kani::cover!(n == N && N > 1 && last == Some(N - 2));
+    kani::cover!(n == N && last == Some(N - 1) && has_rule);
+}
+
+#[kani::proof]
+#[kani::unwind(6)]
+#[kani::stub(crate::timezone::RuleDay::unix_time, stub_rule_unix_time)]
+#[kani::stub(crate::timezone::AlternateTime::find_local_time_type, stub_alt_find)]
+fn c03_lookup_n4() {
+    c03_body::<4>(0);
+}
+
+#[kani::proof]
+#[kani::unwind(8)]
+#[kani::stub(crate::timezone::RuleDay::unix_time, stub_rule_unix_time)]
+#[kani::stub(crate::timezone::AlternateTime::find_local_time_type, stub_alt_find)]
+fn c03_lookup_n6() {
+    c03_body::<6>(0);
+}
+
+#[kani::proof]
+#[kani::unwind(6)]
+#[kani::stub(crate::timezone::RuleDay::unix_time, stub_rule_unix_time)]
+#[kani::stub(crate::timezone::AlternateTime::find_local_time_type, stub_alt_find)]
+fn c03_lookup_leap_n3() {
+    c03_body::<3>(2);
+}
+
+#[kani::proof]
+#[kani::unwind(6)]
+#[kani::stub(crate::timezone::RuleDay::unix_time, stub_rule_unix_time)]
+#[kani::stub(crate::timezone::AlternateTime::find_local_time_type, stub_alt_find)]
+fn c03_lookup_leap_n4() {
+    c03_body::<4>(3);
+}
+
+// ------------------------------------------------------------------ C13
+pub(crate) fn any_ltt_full() -> LocalTimeType {
+    let off: i32 = kani::any();
+    let dst: bool = kani::any();
+    kani::assume(off != i32::MIN);
+    let has: bool = kani::any();
+    let bytes: [u8; 8] = kani::any();
+    LocalTimeType { ut_offset: off, is_dst: dst, time_zone_designation: if has { Some(TzAsciiStr { bytes }) } else { None } }
+}
+
+fn same_ltt(a: &LocalTimeType, b: &LocalTimeType) -> bool {
+    a.ut_offset == b.ut_offset
+        && a.is_dst == b.is_dst
+        && match (&a.time_zone_designation, &b.time_zone_designation) {
+            (Some(x), Some(y)) => {
+                let mut i = 0;
+                let mut e = true;
+                while i < 8 {
+                    if x.bytes[i] != y.bytes[i] {
+                        e = false;
+                    }
+                    i += 1;
+                }
+                e
+            }
+            (None, None) => true,
+            _ => false,
+        }
+}
+
+struct Spec {
+    no_type: bool,
+    bad_index: bool,
+    bad_order: bool,
+    bad_leap: bool,
+    conv_overflow: bool,
+    rule_mismatch: bool,
+}
+
+fn c13_spec(tr: &[Transition], types: &[LocalTimeType], ls: &[LeapSecond], rule_type_at_last: Option<&LocalTimeType>) -> Spec {
+    let mut s = Spec { no_type: types.is_empty(), bad_index: false, bad_order: false, bad_leap: false, conv_overflow: false, rule_mismatch: false };
+    let mut i = 0;
+    while i < tr.len() {
+        if tr[i].local_time_type_index() >= types.len() {
+            s.bad_index = true;
+        }
+        if i + 1 < tr.len() && tr[i].unix_leap_time() >= tr[i + 1].unix_leap_time() {
+            s.bad_order = true;
+        }
+        i += 1;
+    }
+    if !ls.is_empty() {
+        let c0 = ls[0].correction() as i64;
+        if ls[0].unix_leap_time() < 0 || !(c0 == 1 || c0 == -1) {
+            s.bad_leap = true;
+        }
+        let mut j = 0;
+        while j + 1 < ls.len() {
+            let dt = ls[j + 1].unix_leap_time() as i128 - ls[j].unix_leap_time() as i128;
+            let dc = ls[j + 1].correction() as i64 - ls[j].correction() as i64;
+            if dt < 28 * 86400 - 1 || !(dc == 1 || dc == -1) {
+                s.bad_leap = true;
+            }
+            j += 1;
+        }
+    }
+    if let (Some(rt), Some(last)) = (rule_type_at_last, tr.last()) {
+        let u = spec_l2u(ls, last.unix_leap_time());
+        if last.unix_leap_time() == i64::MIN || u > i64::MAX as i128 || u < i64::MIN as i128 {
+            s.conv_overflow = true;
+        } else if !s.no_type && !s.bad_index && !same_ltt(rt, &types[last.local_time_type_index()]) {
+            s.rule_mismatch = true;
+        }
+    }
+    s
+}
+
+fn c13_check(r: &Result<(), TzError>, s: &Spec) {
+    let all_ok = !(s.no_type || s.bad_index || s.bad_order || s.bad_leap || s.conv_overflow || s.rule_mismatch);
+    match r {
+        Ok(()) => assert!(all_ok),
+        Err(TzError::TimeZone(TimeZoneError::NoLocalTimeType)) => assert!(s.no_type),
+        Err(TzError::TimeZone(TimeZoneError::InvalidLocalTimeTypeIndex)) => assert!(s.bad_index),
+        Err(TzError::TimeZone(TimeZoneError::InvalidTransition)) => assert!(s.bad_order),
+        Err(TzError::TimeZone(TimeZoneError::InvalidLeapSecond)) => assert!(s.bad_leap),
+        Err(TzError::OutOfRange) => assert!(s.conv_overflow),
+        Err(TzError::TimeZone(TimeZoneError::InconsistentExtraRule)) => assert!(s.rule_mismatch),
+        Err(_) => assert!(false),
+    }
+    kani::cover!(r.is_ok());
+}
+
+#[kani::proof]
+#[kani::unwind(10)]
+#[kani::stub(crate::timezone::RuleDay::unix_time, stub_rule_unix_time)]
+#[kani::stub(crate::timezone::AlternateTime::find_local_time_type, stub_alt_find)]
+fn c13_ref_fixed_or_none() {
+    let types = [any_ltt_full(), any_ltt_full(), any_ltt_full()];
+    let k: usize = kani::any();
+    kani::assume(k <= 3);
+    let tr = [Transition::new(kani::any(), kani::any()), Transition::new(kani::any(), kani::any()), Transition::new(kani::any(), kani::any())];
+    let n: usize = kani::any();
+    kani::assume(n <= 3);
+    let (ls, m) = any_leaps3();
+    let has_rule: bool = kani::any();
+    let rule = if has_rule { Some(TransitionRule::Fixed(any_ltt_full())) } else { None };
+    let r = TimeZoneRef::new(&tr[..n], &types[..k], &ls[..m], &rule).map(|_| ());
+    let rt = match &rule {
+        Some(TransitionRule::Fixed(l)) => Some(l),
+        _ => None,
+    };
+    let s = c13_spec(&tr[..n], &types[..k], &ls[..m], rt);
+    c13_check(&r, &s);
+    kani::cover!(s.rule_mismatch && !s.bad_order && !s.bad_leap);
+    kani::cover!(s.conv_overflow && !s.bad_leap && !s.bad_order && !s.bad_index && !s.no_type);
+    kani::cover!(r.is_ok() && n == 3 && m == 3 && has_rule);
+}
+
+static PICK: core::sync::atomic::AtomicU8 = core::sync::atomic::AtomicU8::new(0);
+/// S_rule_spec: the DST rule prescribes std or dst (nondeterministic choice fixed by the harness); C04 decides which
+fn stub_alt_pick<'a>(s: &'a AlternateTime, _t: i64) -> Result<&'a LocalTimeType, TzError> {
+    if PICK.load(core::sync::atomic::Ordering::Relaxed) == 0 {
+        Ok(s.std())
+    } else {
+        Ok(s.dst())
+    }
+}
+
+#[kani::proof]
+#[kani::unwind(10)]
+#[kani::stub(crate::timezone::AlternateTime::find_local_time_type, stub_alt_pick)]
+fn c13_rule_alternate() {
+    let types = [any_ltt_full(), any_ltt_full()];
+    let tr = [Transition::new(kani::any(), kani::any()), Transition::new(kani::any(), kani::any())];
+    let n: usize = kani::any();
+    kani::assume(n <= 2);
+    let std = any_ltt_full();
+    let dst = any_ltt_full();
+    kani::assume(-90000 < std.ut_offset && std.ut_offset < 93600 && dst.ut_offset == std.ut_offset + 3600);
+    let alt = match AlternateTime::new(std, dst, RuleDay::Julian0WithLeap(Julian0WithLeap::new(80).unwrap()), 7200, RuleDay::Julian0WithLeap(Julian0WithLeap::new(300).unwrap()), 7200) {
+        Ok(a) => a,
+        Err(_) => return,
+    };
+    let pick: u8 = kani::any();
+    kani::assume(pick <= 1);
+    PICK.store(pick, core::sync::atomic::Ordering::Relaxed);
+    let rule = Some(TransitionRule::Alternate(alt));
+    let r = TimeZoneRef::new(&tr[..n], &types, &[], &rule).map(|_| ());
+    let prescribed = if pick == 0 { alt.std() } else { alt.dst() };
+    let s = c13_spec(&tr[..n], &types, &[], Some(prescribed));
+    c13_check(&r, &s);
+    kani::cover!(r.is_ok() && n == 2 && pick == 1);
+    kani::cover!(s.rule_mismatch && n == 2 && prescribed.ut_offset == types[tr[1].local_time_type_index() % 2].ut_offset && prescribed.is_dst == types[tr[1].local_time_type_index() % 2].is_dst);
+    kani::cover!(s.rule_mismatch && n == 1 && prescribed.ut_offset != types[tr[0].local_time_type_index() % 2].ut_offset);
+}
+
+#[kani::proof]
+#[kani::unwind(10)]
+#[kani::stub(crate::timezone::RuleDay::unix_time, stub_rule_unix_time)]
+#[kani::stub(crate::timezone::AlternateTime::find_local_time_type, stub_alt_find)]
+fn c13_owned_equals_borrowed() {
+    let types = [any_ltt_full(), any_ltt_full()];
+    let k: usize = kani::any();
+    kani::assume(k <= 2);
+    let tr = [Transition::new(kani::any(), kani::any()), Transition::new(kani::any(), kani::any())];
+    let n: usize = kani::any();
+    kani::assume(n <= 2);
+    let (ls, m) = any_leaps3();
+    kani::assume(m <= 2);
+    let has_rule: bool = kani::any();
+    let rule = if has_rule { Some(TransitionRule::Fixed(any_ltt_full())) } else { None };
+    let a = TimeZoneRef::new(&tr[..n], &types[..k], &ls[..m], &rule).map(|_| ());
+    let b = TimeZone::new(tr[..n].to_vec(), types[..k].to_vec(), ls[..m].to_vec(), rule);
+    match (&a, &b) {
+        (Ok(()), Ok(z)) => {
+            let zr = z.as_ref();
+            assert!(zr.transitions().len() == n && zr.local_time_types().len() == k && zr.leap_seconds().len() == m);
+            let i: usize = kani::any();
+            if i < n {
+                assert!(zr.transitions()[i] == tr[i]);
+            }
+            if i < k {
+                assert!(same_ltt(&zr.local_time_types()[i], &types[i]));
+            }
+            if i < m {
+                assert!(zr.leap_seconds()[i] == ls[i]);
+            }
+        }
+        (Err(x), Err(y)) => assert!(core::mem::discriminant(x) == core::mem::discriminant(y) && match (x, y) {
+            (TzError::TimeZone(p), TzError::TimeZone(q)) => core::mem::discriminant(p) == core::mem::discriminant(q),
+            _ => true,
+        }),
+        _ => assert!(false),
+    }
+    kani::cover!(a.is_ok() && n == 2 && m == 2);
+    kani::cover!(a.is_err());
+    core::mem::forget(b);
+}
